@@ -256,6 +256,18 @@ def _history_differs(items, hashseed, cid, vid):
 def _minimise_history(items, hashseed, cid, vid, max_runs=12):
     items = list(items)
     runs = 0
+    # first halve the prefix (the target item stays last), then drop single items
+    while len(items) > 2 and runs < max_runs:
+        k = (len(items) - 1) // 2
+        cand = items[k:]
+        runs += 1
+        try:
+            if _history_differs(cand, hashseed, cid, vid):
+                items = cand
+                continue
+        except HarnessError:
+            pass
+        break
     i = len(items) - 2
     while i >= 0 and runs < max_runs:
         cand = items[:i] + items[i + 1:]
@@ -367,7 +379,10 @@ def main(args):
     directed = directed_known()
     # jobs: split every incarnation's items into chunks so that all cores are busy
     jobs = []
-    per_job = max(4, (total_variants // max(1, workers * 2)) + 1)
+    # (at most 80 items per interpreter: a mismatch that only shows after other items
+    # ran in the same process is replayed with its job prefix as history, which must
+    # stay short enough to re-run and to minimise)
+    per_job = min(80, max(4, (total_variants // max(1, workers * 2)) + 1))
     for inc, items in by_inc.items():
         for k in range(0, len(items), per_job):
             jobs.append((hs[inc], items[k:k + per_job]))
